@@ -313,6 +313,25 @@ def o_pop_front(ev, st, t, site):
     return _set_dest(st, t, NONE)
 
 
+def o_pop_back(ev, st, t, site):
+    lid, lst = _list_of(st, _arg(ev, st, t, 0))
+    if lid is None:
+        return False
+    if lst:
+        e = lst.pop()
+        st[-lid] = ("list", tuple(lst))
+        return _set_dest(st, t, some(e))
+    return _set_dest(st, t, NONE)
+
+
+def o_clear(ev, st, t, site):
+    lid, lst = _list_of(st, _arg(ev, st, t, 0))
+    if lid is None:
+        return False
+    st[-lid] = ("list", ())
+    return _set_dest(st, t, tup())
+
+
 def o_insert(ev, st, t, site):
     lid, lst = _list_of(st, _arg(ev, st, t, 0))
     idx = _as_int(_deref(st, _arg(ev, st, t, 1)))
@@ -408,6 +427,8 @@ RAW_ORACLES = [
     (r"VecDeque.*::push_front$", o_push_front),
     (r"VecDeque.*::push_back$|Vec.*::push$", o_push_back),
     (r"VecDeque.*::pop_front$", o_pop_front),
+    (r"VecDeque.*::pop_back$|vec::Vec.*::pop$", o_pop_back),
+    (r"VecDeque.*::clear$|vec::Vec.*::clear$", o_clear),
     (r"VecDeque.* as std::iter::Extend.*::extend$|Vec.* as std::iter::Extend.*::extend$", o_extend),
     (r"VecDeque.*::insert$|Vec.*::insert$", o_insert),
     (r"VecDeque.*::retain(_mut)?$|Vec.*::retain(_mut)?$", o_retain),
